@@ -62,3 +62,89 @@ theorem ceil_div_sqrt_real (b : Int) (D c : Nat) (hc : 0 < c) :
   push_cast
   constructor <;> intro h <;> linarith
 end Model.C11
+
+namespace Model.C11
+
+/-- for any real `y`, `⌈(b + y)/c⌉` depends on `y` only through `⌈y⌉` -/
+theorem ceil_div_add_real (b : Int) (y : ℝ) (c : Nat) (hc : 0 < c) :
+    ⌈((b : ℝ) + y) / (c : ℝ)⌉ = pyCeilDiv (b + ⌈y⌉) (c : Int) := by
+  have hc' : (0 : ℝ) < c := by exact_mod_cast hc
+  apply eq_of_forall_ge_iff
+  intro t
+  rw [Int.ceil_le, pyCeilDiv_le_iff _ _ _ hc, div_le_iff₀ hc']
+  have : b + ⌈y⌉ ≤ t * c ↔ ⌈y⌉ ≤ t * c - b := by omega
+  rw [this, Int.ceil_le]
+  push_cast
+  constructor <;> intro h <;> linarith
+
+/-- **Correctly rounded square root followed by `ceil` is exact below 2^52.**
+`fl` is any rounding with relative error at most `2^-53` (round-to-nearest binary64), monotone, and exact on the integers
+up to `2^26`; then `⌈fl(√D)⌉ = ⌈√D⌉` for every natural `D < 2^52`.  (At `D = 2^52 + 1` the statement is false for IEEE
+binary64, so the bound is sharp.) -/
+theorem float_ceil_sqrt (fl : ℝ → ℝ) (hrel : ∀ x : ℝ, 0 ≤ x → |fl x - x| ≤ x / 2 ^ 53)
+    (hmono : Monotone fl) (hint : ∀ z : ℕ, z ≤ 2 ^ 26 → fl (z : ℝ) = z) (D : ℕ) (hD : D < 2 ^ 52) :
+    ⌈fl (Real.sqrt (D : ℝ))⌉ = (ceilSqrt D : ℤ) := by
+  rcases Nat.eq_zero_or_pos D with h0 | hpos
+  · subst h0
+    have : ceilSqrt 0 = 0 := by
+      have := (ceilSqrt_le_iff 0 0).mpr (by omega); omega
+    rw [this]
+    simp only [Nat.cast_zero, Real.sqrt_zero]
+    have := hint 0 (by positivity)
+    simp only [Nat.cast_zero] at this
+    rw [this]; simp
+  · obtain ⟨k, hk, hlo, hhi⟩ := ceilSqrt_spec D hpos
+    rw [hk]
+    have hk26 : k < 2 ^ 26 := by
+      have : k * k < 2 ^ 26 * 2 ^ 26 := by
+        have : (2 : ℕ) ^ 26 * 2 ^ 26 = 2 ^ 52 := by norm_num
+        omega
+      exact Nat.mul_self_lt_mul_self_iff.mp this
+    set x := Real.sqrt (D : ℝ) with hx
+    have hx0 : 0 ≤ x := Real.sqrt_nonneg _
+    have hxx : x * x = D := Real.mul_self_sqrt (by positivity)
+    have hlo' : ((k : ℝ)) * k + 1 ≤ D := by exact_mod_cast hlo
+    have hhi' : (D : ℝ) ≤ ((k : ℝ) + 1) * (k + 1) := by exact_mod_cast hhi
+    have hD' : (D : ℝ) < 2 ^ 52 := by exact_mod_cast hD
+    have hk0 : (0 : ℝ) ≤ k := by positivity
+    have hkx : (k : ℝ) < x := by
+      by_contra h
+      have h := not_lt.mp h
+      have : x * x ≤ k * k := by nlinarith
+      linarith
+    have hxk1 : x ≤ (k : ℝ) + 1 := by
+      by_contra h
+      have h := not_le.mp h
+      have : ((k : ℝ) + 1) * (k + 1) < x * x := by nlinarith
+      linarith
+    have hxpos : 0 < x := lt_of_le_of_lt hk0 hkx
+    -- upper bound: monotone + exact on the integer k + 1
+    have hup : fl x ≤ (k : ℝ) + 1 := by
+      have := hmono hxk1
+      have e := hint (k + 1) (by omega)
+      push_cast at e
+      rw [e] at this; exact this
+    -- lower bound: the gap x - k exceeds the rounding error x / 2^53 because x² < 2^52
+    have herr := hrel x hx0
+    have hlow : (k : ℝ) < fl x := by
+      have h1 : x - x / 2 ^ 53 ≤ fl x := by
+        have := abs_le.mp herr; linarith
+      have h2 : (x - k) * (2 * x) > 1 := by nlinarith
+      have h3 : (x / 2 ^ 53) * (2 * x) < 1 := by
+        have : (x / 2 ^ 53) * (2 * x) = (x * x) / 2 ^ 52 := by ring
+        rw [this, hxx, div_lt_one (by positivity)]; exact hD'
+      have h4 : (x - k - x / 2 ^ 53) * (2 * x) > 0 := by nlinarith
+      have h5 : x - k - x / 2 ^ 53 > 0 := by
+        by_contra h
+        have h := not_lt.mp h
+        have : (x - k - x / 2 ^ 53) * (2 * x) ≤ 0 := mul_nonpos_of_nonpos_of_nonneg h (by positivity)
+        linarith
+      linarith
+    rw [Int.ceil_eq_iff]
+    push_cast
+    constructor <;> linarith
+
+example : ∃ fl : ℝ → ℝ, (∀ x : ℝ, 0 ≤ x → |fl x - x| ≤ x / 2 ^ 53) ∧ Monotone fl ∧ ∀ z : ℕ, z ≤ 2 ^ 26 → fl (z : ℝ) = z :=
+  ⟨id, fun x hx => by simp; positivity, monotone_id, fun _ _ => rfl⟩
+
+end Model.C11
